@@ -38,4 +38,6 @@ func runC02(c *core.Ctx) {
 	h.onlyWriters("C02.7b who-may-write", "raft:snapshots.term", "(*snapshotSink).done", "openSnapshots")
 	c.Clause("C02.8 the leader's own copy of an entry is flushed before the leader counts the entry committed")
 	h.leaderFlushBeforeAdvance("C02.8 leader-flush")
+	h.clearLogResets("C02.5c clearLog-resets")
+	h.failedConnNotReused("C02.9 failed-conn-not-reused")
 }
